@@ -10,7 +10,7 @@ from harness.common import qlit, zlit, optlit, listlit
 from harness import exact as X
 
 VFILES = ['Lib/PySlice.v', 'Gen/GenConsts.v', 'Model/FastLen.v', 'Gen/GenUtils.v', 'Model/Ledger.v', 'Model/Band.v',
-          'Model/Concat.v', 'Proofs/BandProofs.v', 'Proofs/ConcatProofs.v', 'Props/C10.v']
+          'Model/Concat.v', 'Proofs/BandProofs.v', 'Proofs/ConcatProofs.v', 'Proofs/ConcatMore.v', 'Proofs/ConcatAssoc.v', 'Proofs/ConcatGroup.v', 'Props/C10.v']
 ALIGN = {'bottom': 0, 'center': 1, 'top': 2}
 CLS = {c: i for i, c in enumerate(X.CLASSES)}
 EPS = Fraction(86400, 2 ** 51)     # Time.isclose default: 2 * eps(float64) days
